@@ -8,7 +8,7 @@ pv/props/c04.py etc. as `genextra.run_c04g(chk, replay)`); they share the driver
   C12g  decode_async == decode for every schedule (same value; error whenever sync reports one; never reads past the message)
 """
 import re
-from . import gengen, genref, genrun, gencheck
+from . import gengen, genref, genrun, gencheck, gencorr
 from .props import c02 as _c02
 
 
@@ -227,16 +227,18 @@ def _post_same(what):
                 continue
             if a.kind != 'ok':
                 continue
-            va, _ = genrun.value_text(gb, c['cfg'], ty, a.debug)
-            vb, _ = genrun.value_text(gb, c['cfg'], ty, b.debug)
-            if va != vb:
+            va, wa = genrun.value_text(gb, c['cfg'], ty, a.debug)
+            vb, wb = genrun.value_text(gb, c['cfg'], ty, b.debug)
+            if wa or wb:
+                bad.append((c0, '%s: %s' % (what, wa or wb), cls, o))       # a Debug text that is not understood is a failure
+            elif va != vb:
                 bad.append((c0, '%s: values differ (%s)' % (what, genrun.diff_text(vb or '', va or '')), cls, o))
             elif a.rem != b.rem:
                 bad.append((c0, '%s: consumed bytes differ (remaining %d vs %d)' % (what, a.rem, b.rem), cls, o))
             elif b.note:
                 bad.append((c0, '%s: %s' % (what, b.note), cls, o))
-            elif a.enc is not None and b.enc is not None and (len(a.enc) != len(b.enc) or sorted(a.enc) != sorted(b.enc)):
-                bad.append((c0, '%s: bytes written differ' % what, cls, o))
+            elif a.enc is not None and b.enc is not None and gencorr.enc_differ(gb, ty, a.enc, b.enc, c['proto']):
+                bad.append((c0, '%s: bytes written differ (%s)' % (what, gencorr.enc_differ(gb, ty, a.enc, b.enc, c['proto'])), cls, o))
         return bad
     return post
 
@@ -371,7 +373,7 @@ def _post_c12g(chk, stats):
             ik = _mem_kind(o)
             swallow = genrun.is_arg_swallow(gb.schema, c['cfg'], c['type'], c['mode'])
             prealloc = c.get('twin') and ik in ('crash', 'hang', 'panic') and has_container(gb.schema, c['type'])
-            if m is not None and not prealloc:
+            if m is not None and not (prealloc and gencheck.f09e_decide(chk, gb, [c])[0]):
                 mk = gencorr._split_model(m)['kind']
                 n_model += 1
                 if mk != ik and not (swallow and ik in ('panic', 'crash')):
@@ -386,7 +388,14 @@ def _post_c12g(chk, stats):
                 # F-12a: only the sync templates of a keep build retain unknown fields; a corrupted field id makes a field unknown
                 cls = 'keep-async-no-retention'
             if prealloc:
-                continue            # F-09e (async preallocation from the wire count): property C09
+                # F-09e (async preallocation from the wire count, property C09) -- only where THIS input shows it: the sync model stops
+                # at a container header whose count is negative / beyond the remaining bytes and the async allocation model requests
+                # the oversized buffer (gencheck.f09e_decide); any other async crash / panic / hang is reported with the case
+                if gencheck.f09e_decide(chk, gb, [c])[0]:
+                    continue
+                bad.append((c0, 'decode_async does not return (%s) where decode gives `%s`, and the input announces no container count beyond '
+                                'the remaining bytes (not F-09e)' % ((o or '')[:60], (o0 or '')[:60]), None, o))
+                continue
             if ak == 'err' and ik != 'err':
                 bad.append((c0, 'decode reports an error, decode_async does not (%s vs %s)' % ((o0 or '')[:60], (o or '')[:60]), cls, o))
             elif ak == 'ok' and ik != 'ok':
